@@ -114,6 +114,11 @@ static int rs_same_slot(JanetSlot a, JanetSlot b) {
     return a.index == b.index && a.envindex == b.envindex && a.flags == b.flags && a.constant.type == b.constant.type && a.constant.as.u64 == b.constant.as.u64;
 }
 
+/* KNOWN FINDING (-DRS_UPVALUE_RANGE). JOP_LOAD_UPVALUE / JOP_SET_UPVALUE address the environment and the register with 8 bits
+ * each (vm.c: B, C). In a function of its own so that the obligation name rs_check_upvalue_range.assertion.1 is stable. */
+static void rs_check_upvalue_range(JanetSlot ret, int err) {
+    __CPROVER_assert(err || (ret.index <= 0xFF && ret.envindex <= 0xFF), "comp.resolve.upvalue-range: an upvalue slot is addressable by LOAD_UPVALUE / SET_UPVALUE (captured register and environment number fit 8 bits), or the compiler reports an error");
+}
 void h_resolve(void) {
     rs_depth = nd_int();
     __CPROVER_assume(rs_depth >= 1 && rs_depth <= 3);
@@ -232,8 +237,7 @@ void h_resolve(void) {
     if (fcur - fdef == 2 && rs_is_fn(1)) REACH("resolve: upvalue through two function levels");
     if (envcnt0[fcur] > 0 && rs_envcount(fcur) == envcnt0[fcur]) REACH("resolve: existing environment reference reused");
 #ifdef RS_UPVALUE_RANGE
-    /* JOP_LOAD_UPVALUE / JOP_SET_UPVALUE address the environment and the register with 8 bits each (vm.c: B, C) */
-    __CPROVER_assert(ret.index <= 0xFF && ret.envindex <= 0xFF, "comp.resolve: an upvalue slot is addressable by LOAD_UPVALUE / SET_UPVALUE (register and environment fit 8 bits), or the compiler reports an error");
+    rs_check_upvalue_range(ret, err);
 #endif
     if (ret.index > 0xFF) REACH("resolve: captured register beyond 255");
     REACH("resolve: upvalue");
